@@ -39,6 +39,9 @@ Record Inv (c : cfg) (x : st) : Prop := mkInv {
   i_faith : forall s j id key tm,
       In (LApp (BEv (s, j) id key tm)) (log (dt x)) \/ In (BEv (s, j) id key tm) (batch (dt x)) ->
       nth_error (items_of x s) j = Some (IEv id key tm);
+  i_ftm : forall s j k ts,
+      In (LApp (BTm (s, j) k ts)) (log (dt x)) \/ In (BTm (s, j) k ts) (batch (dt x)) ->
+      exists t, nth_error (items_of x s) j = Some (IWm t);
   i_app : forall b, In b (applied (dt x)) <-> In (LApp b) (log (dt x));
   i_hist : forall post cid snap pre, log (dt x) = post ++ LCkpt cid snap :: pre -> cut_ok c x post cid snap pre }.
 
@@ -69,6 +72,7 @@ Proof.
   - intros s j id key tm H. rewrite items_init in H. destruct j; discriminate.
   - intros s j t H. rewrite items_init in H. destruct j; discriminate.
   - intros s j id key tm [[]|[]].
+  - intros s j k ts [[]|[]].
   - cbn. tauto.
   - intros [|? post] cid snap pre H; discriminate.
 Qed.
@@ -181,6 +185,9 @@ Proof.
   - intros s j id key tm H. apply i_faith0. rewrite L in H. destruct H as [H|H]; [|auto].
     apply in_app_or in H. destruct H as [H|H]; [|auto].
     destruct (HE _ H) as [(w & ?)|(b & [= <-] & Hb)]; [discriminate|auto].
+  - intros s j k ts H. apply (i_ftm0 s j k ts). rewrite L in H. destruct H as [H|H]; [|auto].
+    apply in_app_or in H. destruct H as [H|H]; [|auto].
+    destruct (HE _ H) as [(w & ?)|(b & [= <-] & Hb)]; [discriminate|auto].
   - intros b. rewrite A, L, in_app_iff, i_app0. tauto.
   - intros post cid snap pre H. rewrite L in H.
     destruct (no_ckpt_in_new _ _ _ _ _ _ (fun e He c0 s0 => match HE e He with
@@ -190,4 +197,406 @@ Proof.
     apply cut_ok_mono with (x := x); auto.
     + intros s. exists []. rewrite app_nil_r. reflexivity.
     + intros e s j He Ho. left. destruct (HE _ He) as [(w & ->)|(b & -> & Hb)]; [discriminate|eauto].
+Qed.
+
+(* ---------- the event loop runs the closure of sender s ---------- *)
+Lemma items_upd_eq x s v ms ck dn y :
+  (s < length (sent x))%nat -> items_of (mkSt ms (set_nth s v (sent x)) ck dn y) s = v.
+Proof. intros H. unfold items_of; cbn. apply nth_set_nth_eq. exact H. Qed.
+Lemma items_upd_neq x s s' v ms ck dn y :
+  s <> s' -> items_of (mkSt ms (set_nth s v (sent x)) ck dn y) s' = items_of x s'.
+Proof. intros H. unfold items_of; cbn. apply nth_set_nth_neq. exact H. Qed.
+
+Lemma Inv_handle_gen c x s it ok O y ck' :
+  Inv c x -> nth_error (modes x) s = Some (Passed it) ->
+  dext O (push_log (LAct (s, acted x s) it ok) (dt x)) y ->
+  (forall b, In b O -> org b = (s, acted x s)) ->
+  (forall o id key tm, In (BEv o id key tm) O -> it = IEv id key tm) ->
+  (forall o k ts, In (BTm o k ts) O -> exists t, it = IWm t) ->
+  (forall id key tm, it = IEv id key tm -> In (BEv (s, acted x s) id key tm) O) ->
+  (forall t, it = IWm t -> ok = true) ->
+  (forall cur m s', ck' = Some (cur, m) -> (s' < n_senders c)%nat -> ~ In s' m -> s' <> s ->
+        exists m0, ckpt x = Some (cur, m0) /\ ~ In s' m0) ->
+  (forall cur m, ck' = Some (cur, m) -> ~ In s m -> it = IBar cur /\ ok = true) ->
+  Inv c (mkSt (set_nth s Idle (modes x)) (set_nth s (items_of x s ++ [it]) (sent x)) ck' (done x) y).
+Proof.
+  intros I Hmode (new & L & E & B & P & A) HO HOev HOtm Hev Hwm K1 K2.
+  pose proof (nth_error_lt _ _ _ Hmode) as Hsm.
+  assert (Hsn : (s < n_senders c)%nat) by (rewrite <- (i_len_m _ _ I); exact Hsm).
+  assert (Hss : (s < length (sent x))%nat) by (rewrite (i_len_s _ _ I); exact Hsn).
+  set (x' := mkSt _ _ _ _ _).
+  cbn [push_log log batch applied] in L, E, B, P, A.
+  assert (Hi_eq : items_of x' s = items_of x s ++ [it]) by (apply items_upd_eq; exact Hss).
+  assert (Hi_ne : forall s', s <> s' -> items_of x' s' = items_of x s') by (intros; apply items_upd_neq; auto).
+  assert (Hext : forall s', exists l, items_of x' s' = items_of x s' ++ l).
+  { intros s'. destruct (Nat.eq_dec s s') as [<-|Hne]; [exists [it]; auto|].
+    exists []. rewrite app_nil_r. auto. }
+  assert (Hnth : forall s' j v, nth_error (items_of x s') j = Some v -> nth_error (items_of x' s') j = Some v).
+  { intros s' j v H. destruct (Hext s') as (l & ->). rewrite nth_error_app1; auto. eapply nth_error_lt; eauto. }
+  assert (Hnthi : forall s' j v, nth_error (items_of x' s') j = Some v ->
+             nth_error (items_of x s') j = Some v \/ (s' = s /\ j = acted x s /\ v = it)).
+  { intros s' j v H. destruct (Nat.eq_dec s s') as [<-|Hne]; [|rewrite Hi_ne in H; auto].
+    rewrite Hi_eq in H. destruct (Nat.lt_ge_cases j (acted x s)) as [Hj|Hj].
+    - rewrite nth_error_app1 in H; auto.
+    - rewrite nth_error_app2 in H by exact Hj. unfold acted in *.
+      destruct (j - length (items_of x s))%nat as [|k] eqn:Ek; cbn in H; [|destruct k; discriminate].
+      right. injection H as <-. repeat split; auto. lia. }
+  assert (Hact_s : acted x' s = S (acted x s)).
+  { unfold acted. rewrite Hi_eq, app_length. cbn. lia. }
+  assert (Hact : forall s', (acted x s' <= acted x' s')%nat).
+  { intros s'. unfold acted. destruct (Hext s') as (l & ->). rewrite app_length. lia. }
+  assert (Hreg : forall s', s' <> s -> (s' < n_senders c)%nat -> reg x' s' -> reg x s').
+  { intros s' Hne Hlt (cur & m & Ec & Hn). cbn in Ec. destruct (K1 _ _ _ Ec Hlt Hn Hne) as (m0 & ? & ?).
+    exists cur, m0. auto. }
+  assert (HLy : forall e, In e (log (dt x)) -> In e (log y)).
+  { intros e He. cbn. rewrite L. apply in_or_app. right. right. exact He. }
+  assert (Horg_new : forall e s' j, In e new -> entry_origin e = Some (s', j) ->
+             (exists bi, e = LApp bi /\ In bi (batch (dt x))) \/ (s' = s /\ j = acted x s)).
+  { intros e s' j He Ho. destruct (E _ He) as [(w & ->)|(b & -> & [Hb|Hb])]; [discriminate|eauto|].
+    right. cbn in Ho. rewrite (HO _ Hb) in Ho. injection Ho as <- <-. auto. }
+  constructor.
+  - cbn. rewrite set_nth_length. apply (i_len_m _ _ I).
+  - cbn. rewrite set_nth_length. apply (i_len_s _ _ I).
+  - (* passed *) intros s' it' H R. cbn in H. destruct (Nat.eq_dec s s') as [<-|Hne].
+    + rewrite nth_error_set_nth_eq in H by exact Hsm. discriminate.
+    + rewrite nth_error_set_nth_neq in H by exact Hne.
+      apply (i_passed _ _ I _ _ H). apply Hreg; auto.
+      rewrite <- (i_len_m _ _ I). eapply nth_error_lt; eauto.
+  - (* parked *) intros s' g it' H R. cbn in H. destruct (Nat.eq_dec s s') as [<-|Hne].
+    + rewrite nth_error_set_nth_eq in H by exact Hsm. discriminate.
+    + rewrite nth_error_set_nth_neq in H by exact Hne. cbn.
+      apply (i_parked _ _ I _ _ _ H). apply Hreg; auto.
+      rewrite <- (i_len_m _ _ I). eapply nth_error_lt; eauto.
+  - (* current checkpoint *) intros cur m s' Ec Hlt Hn. cbn in Ec. destruct (Nat.eq_dec s' s) as [->|Hne].
+    + destruct (K2 _ _ Ec Hn) as (-> & ->). exists (acted x s). repeat split; auto.
+      * rewrite Hi_eq. rewrite nth_error_app2 by (unfold acted; lia). unfold acted. rewrite Nat.sub_diag. reflexivity.
+      * cbn. rewrite L. apply in_or_app. right. left. reflexivity.
+    + destruct (K1 _ _ _ Ec Hlt Hn Hne) as (m0 & Ec0 & Hn0).
+      destruct (i_cur _ _ I _ _ _ Ec0 Hlt Hn0) as (b & Hb1 & Hb2 & Hb3). exists b. repeat split; auto.
+      unfold acted. rewrite Hi_ne by auto. exact Hb1.
+  - (* origins in the log *) intros e s' j He Ho. cbn in He. rewrite L in He. apply in_app_or in He.
+    destruct He as [He|[<-|He]].
+    + destruct (Horg_new _ _ _ He Ho) as [(bi & -> & Hbi)|(-> & ->)]; [|lia].
+      cbn in Ho. injection Ho as Ho. pose proof (i_obatch _ _ I _ _ _ Hbi Ho). pose proof (Hact s'). lia.
+    + cbn in Ho. injection Ho as <- <-. lia.
+    + pose proof (i_olog _ _ I _ _ _ He Ho). pose proof (Hact s'). lia.
+  - (* origins in the batch *) intros b s' j Hb Ho. cbn in Hb. destruct (B _ Hb) as [Hb'|Hb'].
+    + pose proof (i_obatch _ _ I _ _ _ Hb' Ho). pose proof (Hact s'). lia.
+    + rewrite (HO _ Hb') in Ho. injection Ho as <- <-. lia.
+  - (* delivered events are pending or applied *) intros s' j id key tm Hn. cbn [dt x'].
+    assert (Hpend : forall b, In b (batch (dt x)) \/ In b O -> In (LApp b) (log y) \/ In b (batch y)).
+    { intros b Hb. destruct (P _ Hb); [auto|]. left. rewrite L. apply in_or_app. auto. }
+    destruct (Hnthi _ _ _ Hn) as [H|(-> & -> & <-)].
+    + destruct (i_cev _ _ I _ _ _ _ _ H) as [H1|H1]; [left; apply HLy; exact H1|apply Hpend; auto].
+    + apply Hpend. right. apply Hev. reflexivity.
+  - (* watermarks *) intros s' j t Hn. destruct (Hnthi _ _ _ Hn) as [H|(-> & -> & <-)].
+    + apply HLy. apply (i_cwm _ _ I _ _ _ H).
+    + cbn. rewrite L. apply in_or_app. right. left. rewrite (Hwm t eq_refl). reflexivity.
+  - (* faithful *) intros s' j id key tm H. cbn [dt x'] in H.
+    assert (Hold : In (LApp (BEv (s', j) id key tm)) (log (dt x)) \/ In (BEv (s', j) id key tm) (batch (dt x)) \/
+                   In (BEv (s', j) id key tm) O).
+    { destruct H as [H|H].
+      - rewrite L in H. apply in_app_or in H. destruct H as [H|[H|H]]; [|discriminate|auto].
+        destruct (E _ H) as [(w & ?)|(b & [= <-] & [Hb|Hb])]; [discriminate|auto|auto].
+      - destruct (B _ H); auto. }
+    destruct Hold as [H1|[H1|H1]].
+    + apply Hnth. apply (i_faith _ _ I). auto.
+    + apply Hnth. apply (i_faith _ _ I). auto.
+    + pose proof (HO _ H1) as Ho. cbn in Ho. injection Ho as -> ->. pose proof (HOev _ _ _ _ H1) as Hit.
+      rewrite Hi_eq. rewrite nth_error_app2 by (unfold acted; lia). unfold acted. rewrite Nat.sub_diag. cbn. congruence.
+  - (* timers come from watermarks *) intros s' j k ts H. cbn [dt x'] in H.
+    assert (Hold : In (LApp (BTm (s', j) k ts)) (log (dt x)) \/ In (BTm (s', j) k ts) (batch (dt x)) \/
+                   In (BTm (s', j) k ts) O).
+    { destruct H as [H|H].
+      - rewrite L in H. apply in_app_or in H. destruct H as [H|[H|H]]; [|discriminate|auto].
+        destruct (E _ H) as [(w & ?)|(b & [= <-] & [Hb|Hb])]; [discriminate|auto|auto].
+      - destruct (B _ H); auto. }
+    destruct Hold as [H1|[H1|H1]].
+    + destruct (i_ftm _ _ I _ _ _ _ (or_introl H1)) as (t & Ht). exists t. apply Hnth. exact Ht.
+    + destruct (i_ftm _ _ I _ _ _ _ (or_intror H1)) as (t & Ht). exists t. apply Hnth. exact Ht.
+    + pose proof (HO _ H1) as Ho. cbn in Ho. injection Ho as -> ->. destruct (HOtm _ _ _ H1) as (t & Hit).
+      exists t. rewrite Hi_eq. rewrite nth_error_app2 by (unfold acted; lia). unfold acted. rewrite Nat.sub_diag. cbn. congruence.
+  - (* applied set *) intros b. cbn [dt x']. rewrite A, L, in_app_iff, (i_app _ _ I). cbn. split; [tauto|].
+    intros [H|[H|H]]; [tauto|discriminate|tauto].
+  - (* history *) intros post cid snap pre H. cbn [dt x'] in H. rewrite L in H.
+    change (new ++ LAct (s, acted x s) it ok :: log (dt x)) with (new ++ [LAct (s, acted x s) it ok] ++ log (dt x)) in H.
+    rewrite app_assoc in H.
+    apply no_ckpt_in_new in H.
+    2:{ intros e He c0 s0 ->. apply in_app_or in He. destruct He as [He|[He|[]]]; [|discriminate].
+        destruct (E _ He) as [(w & ?)|(b & ? & _)]; discriminate. }
+    destruct H as (post0 & -> & H0).
+    apply cut_ok_mono with (x := x); auto.
+    + apply (i_hist _ _ I). exact H0.
+    + intros bi s' j Hb Ho. cbn in Hb. destruct (B _ Hb) as [?|Hb']; [auto|].
+      rewrite (HO _ Hb') in Ho. injection Ho as <- <-. right. lia.
+    + intros e s' j He Ho. apply in_app_or in He. destruct He as [He|[<-|[]]].
+      * destruct (Horg_new _ _ _ He Ho) as [?|(-> & ->)]; [auto|right; lia].
+      * cbn in Ho. injection Ho as <- <-. right. lia.
+Qed.
+
+(* all barriers are in: db.Checkpoint, report, clear *)
+Lemma Inv_complete c z cur m :
+  Inv c z -> ckpt z = Some (cur, m) -> (forall s, (s < n_senders c)%nat -> ~ In s m) -> batch (dt z) = [] ->
+  Inv c (mkSt (modes z) (sent z) None (done z + 1) (push_log (LCkpt cur (applied (dt z), timers (dt z))) (dt z))).
+Proof.
+  intros I Ec Hall Hb. constructor; cbn [modes sent ckpt done dt push_log log batch applied].
+  - apply (i_len_m _ _ I).
+  - apply (i_len_s _ _ I).
+  - intros s it _ (? & ? & ? & _). discriminate.
+  - intros s g it _ (? & ? & ? & _). discriminate.
+  - discriminate.
+  - intros e s j [<-|He] Ho; [discriminate|]. apply (i_olog _ _ I _ _ _ He Ho).
+  - apply (i_obatch _ _ I).
+  - intros s j id key tm H. destruct (i_cev _ _ I _ _ _ _ _ H); [left; right|right]; auto.
+  - intros s j t H. right. apply (i_cwm _ _ I _ _ _ H).
+  - intros s j id key tm [[H|H]|H]; [discriminate| |]; apply (i_faith _ _ I); auto.
+  - intros s j k ts [[H|H]|H]; [discriminate| |]; apply (i_ftm _ _ I s j k ts); auto.
+  - intros b. rewrite (i_app _ _ I). cbn [In]. split; [auto|]. intros [H|H]; [discriminate|auto].
+  - intros post cid snap pre H. destruct post as [|e post]; cbn in H.
+    + injection H as <- <- <-. (* the record just written *)
+      split; [cbn; apply (i_app _ _ I)|].
+      exists (fun s => pred (acted z s)). intros s Hs.
+      destruct (i_cur _ _ I _ _ _ Ec Hs (Hall s Hs)) as (b & B1 & B2 & B3).
+      change (acted (mkSt (modes z) (sent z) None (done z + 1) _) s) with (acted z s).
+      change (items_of (mkSt (modes z) (sent z) None (done z + 1) _) s) with (items_of z s).
+      rewrite B1. cbn [pred dt batch push_log]. rewrite Hb. repeat split; auto.
+      * intros bi j [].
+      * intros e j He Ho. pose proof (i_olog _ _ I _ _ _ He Ho). lia.
+      * intros e j [].
+      * intros j id key tm Hj Hn. destruct (i_cev _ _ I _ _ _ _ _ Hn) as [?|Hx]; auto. rewrite Hb in Hx. destruct Hx.
+      * intros j t Hj Hn. apply (i_cwm _ _ I _ _ _ Hn).
+    + injection H as <- H. destruct (i_hist _ _ I _ _ _ _ H) as (Hsnap & b & Hbb). split; auto. exists b. intros s Hs.
+      destruct (Hbb s Hs) as (B1 & B2 & B3 & B4 & B5 & B6 & B7 & B8). repeat split; auto.
+      intros e j [<-|He] Ho; [discriminate|eauto].
+Qed.
+
+Lemma passed_not_reg c x s it cur m :
+  Inv c x -> nth_error (modes x) s = Some (Passed it) -> ckpt x = Some (cur, m) -> ~ In s m -> False.
+Proof. intros I Hm Ec Hn. apply (i_passed _ _ I _ _ Hm). exists cur, m. auto. Qed.
+
+Lemma Inv_handle_bar c x s cid ok y ck' :
+  Inv c x -> nth_error (modes x) s = Some (Passed (IBar cid)) ->
+  dext [] (push_log (LAct (s, acted x s) (IBar cid) ok) (dt x)) y ->
+  (forall cur m s', ck' = Some (cur, m) -> (s' < n_senders c)%nat -> ~ In s' m -> s' <> s ->
+        exists m0, ckpt x = Some (cur, m0) /\ ~ In s' m0) ->
+  (forall cur m, ck' = Some (cur, m) -> ~ In s m -> IBar cid = IBar cur /\ ok = true) ->
+  Inv c (mkSt (set_nth s Idle (modes x)) (set_nth s (items_of x s ++ [IBar cid]) (sent x)) ck' (done x) y).
+Proof.
+  intros I Hm Hd K1 K2.
+  apply (Inv_handle_gen c x s (IBar cid) ok [] y ck' I Hm Hd); auto.
+  - intros b [].
+  - intros o i k t [].
+  - intros o k ts [].
+  - discriminate.
+  - discriminate.
+Qed.
+
+Lemma Inv_handle c x s x' : Inv c x -> step c x (Handle s) = Some x' -> Inv c x'.
+Proof.
+  intros I H. cbn in H. destruct (nth_error (modes x) s) as [[| |it]|] eqn:Hmode; try discriminate.
+  injection H as <-.
+  pose proof (nth_error_lt _ _ _ Hmode) as Hsm.
+  assert (Hsn : (s < n_senders c)%nat) by (rewrite <- (i_len_m _ _ I); exact Hsm).
+  unfold handle_item.
+  change (length (nth s (sent x) [])) with (acted x s).
+  change (nth s (sent x) []) with (items_of x s).
+  assert (Ksame : forall cur m s', ckpt x = Some (cur, m) -> (s' < n_senders c)%nat -> ~ In s' m -> s' <> s ->
+                    exists m0, ckpt x = Some (cur, m0) /\ ~ In s' m0) by (intros; eauto).
+  assert (Kno : forall ok cur m, ckpt x = Some (cur, m) -> ~ In s m -> it = IBar cur /\ ok = true).
+  { intros ok cur m Ec Hn. exfalso. eapply passed_not_reg; eauto. }
+  destruct it as [id key tm|t|cid].
+  - (* keyed event *)
+    apply (Inv_handle_gen c x s (IEv id key tm) true [BEv (s, acted x s) id key tm] _ (ckpt x) I Hmode); auto.
+    + apply add_item_dext.
+    + intros b [<-|[]]. reflexivity.
+    + intros o i k t [[= _ <- <- <-]|[]]. reflexivity.
+    + intros o k ts [H|[]]. discriminate.
+    + intros i k t [= <- <- <-]. left. reflexivity.
+    + apply Kno.
+  - (* watermark *)
+    destruct (handle_wm_dext c (push_log (LAct (s, acted x s) (IWm t) true) (dt x)) (s, acted x s) t) as (O & HO & HB).
+    apply (Inv_handle_gen c x s (IWm t) true O _ (ckpt x) I Hmode HO); auto.
+    + intros b Hb. destruct (HB _ Hb) as (k & ts & ->). reflexivity.
+    + intros o i k tm Hb. destruct (HB _ Hb) as (? & ? & ?). discriminate.
+    + intros o k ts _. exists t. reflexivity.
+    + discriminate.
+    + apply Kno.
+  - (* barrier *)
+    destruct (ckpt x) as [[cur m]|] eqn:Ec.
+    + destruct (cid =? cur) eqn:Eid; cbn [negb].
+      * apply N.eqb_eq in Eid. subst cid.
+        assert (K1 : forall mm, (forall y, In y (remove_nat s m) -> In y mm) ->
+                  forall cur' m0 s', Some (cur, mm) = Some (cur', m0) -> (s' < n_senders c)%nat -> ~ In s' m0 -> s' <> s ->
+                  exists m1, Some (cur, m) = Some (cur', m1) /\ ~ In s' m1).
+        { intros mm Hsub cur' m0 s' [= <- <-] Hlt Hn Hne. exists m. split; auto. intros Hin. apply Hn, Hsub.
+          apply in_remove_nat. auto. }
+        assert (K2 : forall mm cur' m0, Some (cur, mm) = Some (cur', m0) -> ~ In s m0 -> IBar cur = IBar cur' /\ true = true).
+        { intros mm cur' m0 [= <- <-] _. auto. }
+        destruct (remove_nat s m) as [|r m'] eqn:Er.
+        -- (* last barrier *)
+           set (d1 := flush None (push_log (LAct (s, acted x s) (IBar cur) true) (dt x))).
+           apply (Inv_complete c (mkSt (set_nth s Idle (modes x)) (set_nth s (items_of x s ++ [IBar cur]) (sent x))
+                                       (Some (cur, [])) (done x) d1) cur []); cbn [ckpt dt]; auto.
+           ++ apply (Inv_handle_bar c x s cur true d1 (Some (cur, [])) I Hmode).
+              ** apply flush_dext.
+              ** rewrite Ec. apply K1. auto.
+              ** apply K2.
+           ++ apply flush_none_batch.
+        -- apply (Inv_handle_bar c x s cur true _ (Some (cur, r :: m')) I Hmode).
+           ++ apply dext_refl.
+           ++ rewrite Ec. apply K1. auto.
+           ++ apply K2.
+      * (* foreign id: rejected *)
+        apply (Inv_handle_bar c x s cid false _ (Some (cur, m)) I Hmode).
+        -- apply dext_refl.
+        -- rewrite Ec. intros cur' m0 s' [= <- <-] Hlt Hn Hne. eauto.
+        -- intros cur' m0 [= <- <-] Hn. exfalso. eapply passed_not_reg; eauto.
+    + (* first barrier of a new checkpoint *)
+      rewrite N.eqb_refl. cbn [negb].
+      assert (K1 : forall mm, (forall y, In y (remove_nat s (seq 0 (n_senders c))) -> In y mm) ->
+                forall cur' m0 s', Some (cid, mm) = Some (cur', m0) -> (s' < n_senders c)%nat -> ~ In s' m0 -> s' <> s ->
+                exists m1, @None (N * list nat) = Some (cur', m1) /\ ~ In s' m1).
+      { intros mm Hsub cur' m0 s' [= <- <-] Hlt Hn Hne. exfalso. apply Hn, Hsub. apply in_remove_nat. split; auto.
+        apply in_seq. lia. }
+      assert (K2 : forall mm cur' m0, Some (cid, mm) = Some (cur', m0) -> ~ In s m0 -> IBar cid = IBar cur' /\ true = true).
+      { intros mm cur' m0 [= <- <-] _. auto. }
+      destruct (remove_nat s (seq 0 (n_senders c))) as [|r m'] eqn:Er.
+      * set (d1 := flush None (push_log (LAct (s, acted x s) (IBar cid) true) (dt x))).
+        apply (Inv_complete c (mkSt (set_nth s Idle (modes x)) (set_nth s (items_of x s ++ [IBar cid]) (sent x))
+                                    (Some (cid, [])) (done x) d1) cid []); cbn [ckpt dt]; auto.
+        -- apply (Inv_handle_bar c x s cid true d1 (Some (cid, [])) I Hmode).
+           ++ apply flush_dext.
+           ++ rewrite Ec. apply K1. auto.
+           ++ apply K2.
+        -- apply flush_none_batch.
+      * apply (Inv_handle_bar c x s cid true _ (Some (cid, r :: m')) I Hmode).
+        -- apply dext_refl.
+        -- rewrite Ec. apply K1. auto.
+        -- apply K2.
+Qed.
+
+Lemma Inv_step c x a x' : Inv c x -> step c x a = Some x' -> Inv c x'.
+Proof.
+  intros I H. destruct a as [s it|s|s| |].
+  - eapply Inv_gate; eauto.
+  - eapply Inv_wake; eauto.
+  - eapply Inv_handle; eauto.
+  - cbn in H. destruct (armed (dt x)); [|discriminate]. injection H as <-.
+    apply Inv_dext; auto. apply dext_same; reflexivity.
+  - cbn in H. destruct (inflight (dt x)) as [|t r]; [discriminate|]. injection H as <-.
+    apply Inv_dext; auto.
+    change (@nil bitem) with (@nil bitem ++ []). eapply dext_trans; [|apply flush_dext]. apply dext_same; reflexivity.
+Qed.
+
+(* ---------- schedules ---------- *)
+Definition infl (m : mode) : list item := match m with Idle => [] | Parked _ it => [it] | Passed it => [it] end.
+Definition full (x : st) (s : nat) : list item := items_of x s ++ infl (nth s (modes x) Idle).
+Definition gate_item (a : action) (s : nat) : list item :=
+  match a with Gate s' it => if Nat.eqb s' s then [it] else [] | _ => [] end.
+
+Lemma handle_item_frame c x s it :
+  modes (handle_item c x s it) = set_nth s Idle (modes x) /\
+  sent (handle_item c x s it) = set_nth s (items_of x s ++ [it]) (sent x).
+Proof.
+  unfold handle_item. destruct it as [id key tm|t|cid]; cbn; auto.
+  destruct (ckpt x) as [[cur m]|].
+  - destruct (cid =? cur); cbn; auto. destruct (remove_nat s m); cbn; auto.
+  - rewrite N.eqb_refl. cbn. destruct (remove_nat s _); cbn; auto.
+Qed.
+
+Lemma nth_of_nth_error {A} (l : list A) i v d : nth_error l i = Some v -> nth i l d = v.
+Proof. revert i; induction l as [|a l IH]; intros [|i] H; cbn in *; try discriminate; [congruence|auto]. Qed.
+
+Lemma step_full c x a x' s : Inv c x -> step c x a = Some x' -> full x' s = full x s ++ gate_item a s.
+Proof.
+  intros I H. destruct a as [s' it|s'|s'| |]; cbn [gate_item].
+  - cbn in H. destruct (nth_error (modes x) s') as [[| |]|] eqn:E; try discriminate. injection H as <-.
+    pose proof (nth_error_lt _ _ _ E) as Hlt. unfold full, with_mode, items_of; cbn [modes sent].
+    destruct (Nat.eqb s' s) eqn:Es.
+    + apply Nat.eqb_eq in Es. subst s'. rewrite nth_set_nth_eq by exact Hlt.
+      rewrite (nth_of_nth_error _ _ _ Idle E). cbn. destruct (should_park x s); cbn; rewrite app_nil_r; reflexivity.
+    + apply Nat.eqb_neq in Es. rewrite nth_set_nth_neq by exact Es. rewrite app_nil_r. reflexivity.
+  - cbn in H. destruct (nth_error (modes x) s') as [[|g it|]|] eqn:E; try discriminate.
+    destruct (g <? done x); [|discriminate]. injection H as <-.
+    pose proof (nth_error_lt _ _ _ E) as Hlt. unfold full, with_mode, items_of; cbn [modes sent]. rewrite app_nil_r.
+    destruct (Nat.eq_dec s' s) as [->|Hne].
+    + rewrite nth_set_nth_eq by exact Hlt. rewrite (nth_of_nth_error _ _ _ Idle E). reflexivity.
+    + rewrite nth_set_nth_neq by exact Hne. reflexivity.
+  - cbn in H. destruct (nth_error (modes x) s') as [[| |it]|] eqn:E; try discriminate. injection H as <-.
+    pose proof (nth_error_lt _ _ _ E) as Hlt.
+    assert (Hls : (s' < length (sent x))%nat) by (rewrite (i_len_s _ _ I), <- (i_len_m _ _ I); exact Hlt).
+    destruct (handle_item_frame c x s' it) as (Hm & Hs). unfold full, items_of. rewrite Hm, Hs, app_nil_r.
+    destruct (Nat.eq_dec s' s) as [->|Hne].
+    + rewrite !nth_set_nth_eq by auto. rewrite (nth_of_nth_error _ _ _ Idle E). cbn. rewrite app_nil_r. reflexivity.
+    + rewrite !nth_set_nth_neq by exact Hne. reflexivity.
+  - cbn in H. destruct (armed (dt x)); [|discriminate]. injection H as <-. unfold full. rewrite app_nil_r. reflexivity.
+  - cbn in H. destruct (inflight (dt x)); [discriminate|]. injection H as <-. unfold full. rewrite app_nil_r. reflexivity.
+Qed.
+
+Lemma script_cons a acts s : script (a :: acts) s = gate_item a s ++ script acts s.
+Proof. destruct a; cbn; auto. destruct (Nat.eqb s0 s); reflexivity. Qed.
+
+Lemma exec_inv c acts : forall x x', Inv c x -> exec c x acts = Some x' ->
+  Inv c x' /\ forall s, full x' s = full x s ++ script acts s.
+Proof.
+  induction acts as [|a acts IH]; intros x x' I H; cbn in H.
+  - injection H as <-. split; auto. intros s. cbn. rewrite app_nil_r. reflexivity.
+  - destruct (step c x a) as [x1|] eqn:E; [|discriminate].
+    pose proof (Inv_step _ _ _ _ I E) as I1. destruct (IH _ _ I1 H) as (I' & Hf). split; auto.
+    intros s. rewrite Hf, (step_full _ _ _ _ s I E), script_cons, app_assoc. reflexivity.
+Qed.
+
+Lemma full_init c s : full (init c) s = [].
+Proof.
+  unfold full. rewrite items_init. cbn.
+  destruct (nth_repeat Idle Idle (n_senders c) s) as [-> | ->]; reflexivity.
+Qed.
+
+Lemma exec_init c acts x : exec c (init c) acts = Some x ->
+  Inv c x /\ forall s, exists l, script acts s = items_of x s ++ l.
+Proof.
+  intros H. destruct (exec_inv c acts _ _ (Inv_init c) H) as (I & Hf). split; auto.
+  intros s. specialize (Hf s). rewrite full_init in Hf. cbn in Hf. rewrite <- Hf. unfold full. eauto.
+Qed.
+
+(* ---------- the theorems (stated again, with their reading, in Props/C02.v) ---------- *)
+Lemma consistent_cut_proof c acts x post cid snap pre :
+  exec c (init c) acts = Some x ->
+  log (dt x) = post ++ LCkpt cid snap :: pre ->
+  (forall bi, In bi (fst snap) <-> In (LApp bi) pre) /\
+  exists b : nat -> nat, forall s, (s < n_senders c)%nat ->
+    nth_error (script acts s) (b s) = Some (IBar cid)
+    /\ In (LAct (s, b s) (IBar cid) true) pre
+    /\ (forall e j, In e pre -> entry_origin e = Some (s, j) -> (j <= b s)%nat)
+    /\ (forall e j, In e post -> entry_origin e = Some (s, j) -> (b s < j)%nat)
+    /\ (forall j id key tm, (j < b s)%nat -> nth_error (script acts s) j = Some (IEv id key tm) ->
+          In (LApp (BEv (s, j) id key tm)) pre /\ In (BEv (s, j) id key tm) (fst snap))
+    /\ (forall j t, (j < b s)%nat -> nth_error (script acts s) j = Some (IWm t) -> In (LAct (s, j) (IWm t) true) pre).
+Proof.
+  intros H HL. destruct (exec_init _ _ _ H) as (I & Hs).
+  destruct (i_hist _ _ I _ _ _ _ HL) as (Hsnap & b & Hb). split; auto. exists b. intros s Hlt.
+  destruct (Hb s Hlt) as (B1 & B2 & B3 & B4 & B5 & B6 & B7 & B8). destruct (Hs s) as (l & El).
+  assert (Hn : forall j, (j < acted x s)%nat -> nth_error (script acts s) j = nth_error (items_of x s) j).
+  { intros j Hj. rewrite El. apply nth_error_app1. exact Hj. }
+  repeat split; auto.
+  - rewrite Hn by exact B1. exact B3.
+  - rewrite Hn in H1 by lia. eauto.
+  - rewrite Hn in H1 by lia. apply Hsnap. eauto.
+  - intros j t Hj Hnj. rewrite Hn in Hnj by lia. eauto.
+Qed.
+
+Lemma applied_are_delivered_proof c acts x s j :
+  exec c (init c) acts = Some x ->
+  (forall id key tm, In (LApp (BEv (s, j) id key tm)) (log (dt x)) -> nth_error (script acts s) j = Some (IEv id key tm)) /\
+  (forall k ts, In (LApp (BTm (s, j) k ts)) (log (dt x)) -> exists t, nth_error (script acts s) j = Some (IWm t)) /\
+  (forall it ok, In (LAct (s, j) it ok) (log (dt x)) -> exists it', nth_error (script acts s) j = Some it').
+Proof.
+  intros H. destruct (exec_init _ _ _ H) as (I & Hs). destruct (Hs s) as (l & El).
+  assert (Hn : forall j v, nth_error (items_of x s) j = Some v -> nth_error (script acts s) j = Some v).
+  { intros j' v Hj. rewrite El. rewrite nth_error_app1; auto. eapply nth_error_lt; eauto. }
+  repeat split.
+  - intros id key tm Hin. apply Hn. apply (i_faith _ _ I). auto.
+  - intros k ts Hin. destruct (i_ftm _ _ I s j k ts (or_introl Hin)) as (t & Ht). eauto.
+  - intros it ok Hin. pose proof (i_olog _ _ I _ s j Hin eq_refl) as Hlt.
+    destruct (nth_error (items_of x s) j) as [v|] eqn:E; [eauto|]. apply nth_error_None in E. unfold acted in Hlt. lia.
 Qed.
